@@ -347,6 +347,44 @@ def generate(repo):
         eng._data_store.dispose()
     logging.disable(logging.NOTSET)
 
+    # --- cryptography engine look-up tables ---------------------------------
+    ce_mod = importlib.import_module("kmip.services.server.crypto.engine")
+    ce = ce_mod.CryptographyEngine()
+
+    def codes(x):
+        return "[" + ", ".join(str(ord(ch)) for ch in x) + "]"
+    rows = []
+    for k, cls in ce._symmetric_key_algorithms.items():
+        bs = getattr(cls, "block_size", 0) or 0
+        rows.append("(%d, %s, %d)" % (k.value, lean_str(cls.__name__), bs))
+    w("/-- symmetric algorithm ↦ (backend class, block size in bits; 0 = stream cipher) -/\n")
+    w("def cryptoSymAlgs : List (Nat × String × Nat) := %s\n\n" % lean_list(rows, 2))
+    rows = []
+    for k, cls in ce._modes.items():
+        uses_iv = hasattr(cls, "initialization_vector") or hasattr(cls, "nonce")
+        rows.append("(%d, %s, %s)" % (k.value, lean_str(cls.__name__), lean_bool(uses_iv)))
+    w("/-- block cipher mode ↦ (backend class, takes an IV/nonce) -/\n")
+    w("def cryptoModes : List (Nat × String × Bool) := %s\n\n" % lean_list(rows, 3))
+    w("def cryptoSymPadding : List (Nat × String) := %s\n\n" % lean_list(
+        ["(%d, %s)" % (k.value, lean_str(c.__name__)) for k, c in ce._symmetric_padding_methods.items()], 3))
+    w("def cryptoAsymPadding : List (Nat × String) := %s\n\n" % lean_list(
+        ["(%d, %s)" % (k.value, lean_str(c.__name__)) for k, c in ce._asymmetric_padding_methods.items()], 3))
+    w("def cryptoNoPaddingModes : List Nat := %s\n\n" % lean_list([str(k.value) for k in ce._no_padding_needed]))
+    w("def cryptoNoModeAlgs : List Nat := %s\n\n" % lean_list([str(k.value) for k in ce._no_mode_needed]))
+    w("/-- (enum member name, backend hash name, digest bits) as character codes, for name/hash agreement checks -/\n")
+    w("def cryptoEncHashes : List (Nat × List Nat × List Nat × Nat) := %s\n\n" % lean_list(
+        ["(%d, %s, %s, %d)" % (k.value, codes(k.name.replace("_", "")), codes(c.name.upper().replace("-", "")),
+                              c.digest_size * 8)
+         for k, c in ce._encryption_hash_algorithms.items()], 1))
+    w("def cryptoMacHashes : List (Nat × List Nat × List Nat × Nat) := %s\n\n" % lean_list(
+        ["(%d, %s, %s, %d)" % (k.value, codes(k.name.replace("_", "")), codes(c.name.upper().replace("-", "")),
+                              c.digest_size * 8)
+         for k, c in ce._hash_algorithms.items()], 1))
+    w("/-- digital signature algorithm ↦ (member name, hash name, cryptographic algorithm) -/\n")
+    w("def cryptoDsa : List (Nat × List Nat × List Nat × Nat) := %s\n\n" % lean_list(
+        ["(%d, %s, %s, %d)" % (k.value, codes(k.name.replace("_", "")), codes(h.name.upper().replace("-", "")), a.value)
+         for k, (h, a) in ce._digital_signature_algorithms.items()], 1))
+
     # --- ast facts --------------------------------------------------------
     meths = engine_ast_facts(repo)
     rows = []
